@@ -30,6 +30,14 @@ CLAIMED = {
          "Props/C20.v with the explicit proviso br_off = tile start; harness reads every box of every image the validator accepts (28% of the generated corrupted/edited images) and compares with the FAB whose header names the index range.",
          "offsets pointing at header-shaped text embedded in payload are outside the generated stream and outside the theorem (stated proviso).",
          "DESIGN.md section 3 C20"),
+ 'C05': ("Coq proof (per-file straining worker on any FAB list, any box subset/order: output = image of the kept components, offsets = their positions; header count rewrite; variable resolution) + directory-image correspondence of the whole tool model",
+         "Props/C05.v: C05_worker_any_layout, C05_kept_fields_bit_identical, C05_strained_box_wf, C05_header_rewrite, C05_resolve_vars. The executable model Writers.Colander.colander (whole tool: task list per file, offset re-mapping to box order, level-header and global-header rewriting) is compared with the output directory of Colander.strain byte for byte / token for token on generated plotfiles x variable lists x limits; the independent reader decides the property (fields, levels, geometry, bit-identical boxes, min/max rows, taste verdict incl. box coordinates).",
+         "partial proof: offset re-mapping (strain_level) and the text rewriting of Cell_H / Header are in the executable model and tied to the code by correspondence, but the refinement theorem colander (pf_disk pf) = pf_disk (colander_spec pf) is not proved.",
+         "DESIGN.md section 3 C05"),
+ 'C08': ("Coq proof (byte-level box read, expand_array = cell replication, level-ordered painting = finest covering level, totality, order-freedom) + bit-for-bit correspondence and independent covering-grid oracle",
+         "Props/C08.v: C08_covering (pixel (x,y) of every returned field = stored word of the cell of the finest selected level with a box over it; grid_level = that level) for every list of well-formed 2D levels in any file layout, every limit and field list; C08_succeeds, C08_total (no uninitialised pixel), C08_expand, C08_box_read, C08_order_free. Extracted Mandoline.Plate.plate compared bit for bit with Mandoline(...).slice(fformat='return') and an independent numpy covering grid on generated 2D plotfiles.",
+         "x/y coordinates (np.linspace) compared numerically, not proved; numpy slice assignment and np.repeat/reshape modelled (Array.Paint, Mandoline.Plate); field-name resolution (parse_input_fields) checked by correspondence only.",
+         "DESIGN.md section 3 C08"),
 }
 PENDING_REASON = "check not built yet in this round (model and theorems planned in DESIGN.md section 3); not claimed until its check runs"
 
